@@ -3,7 +3,7 @@ From Coq Require Import ZArith List Bool.
 From Coq Require String.
 From PS.model Require Import Smt Enc Ind Prog Solution.
 From PS.spec Require Import Spec.
-From PS.proofs Require Import Base C11_proof Examples3.
+From PS.proofs Require Import Base Wf_proof C11_proof C11_views Examples3.
 Import ListNotations.
 Open Scope Z_scope.
 
@@ -40,7 +40,7 @@ Theorem C11_resource_names : forall c st e delta t0 r,
   In r (so_resources (build_solution c st e delta t0)) -> In (rs_name r) (report_names st).
 Proof. exact resource_names. Qed.
 Print Assumptions C11_resource_names.
-Theorem C11_unit_under_cumulative_name : forall c i, wref_report_name (WUnit c i) = rref_report_name (RC c).
+Theorem C11_unit_under_cumulative_name : forall c i, wref_key (WUnit c i) = rref_key (RC c) /\ wref_key (WUnit c i) = ResC c.
 Proof. exact unit_reported_as_cumulative. Qed.
 Print Assumptions C11_unit_under_cumulative_name.
 
@@ -53,11 +53,32 @@ Theorem C11_assignment_interval : forall st e w x,
 Proof. exact assignment_is_busy_interval. Qed.
 Print Assumptions C11_assignment_interval.
 
-(* PARTIAL: "a task lists a resource exactly when that resource lists an assignment for the task" and "tasks
-   reported as not scheduled carry no assignment" are decided on every returned solution of the sampled programs
-   by direct clause checks on the real object plus the O5 comparison; they are refuted on the code for
-   early_out > task length (F26), delay_in >= task number on an unscheduled optional task (F40) and a cumulative
-   worker listed inside a selection (F04) -- known findings; no theorem is claimed for them. *)
+(* a task lists a resource among its assigned resources exactly when the report of that resource lists an assignment
+   for the task -- for every state reached by a program, under two guards that exclude the known findings:
+   no static requirement has an early_out (F26: the worker side would drop an interval with a negative end) and every
+   required resource is a worker of the problem (F04: a cumulative worker listed inside a selection is never visited).
+   Proved from three run invariants (link between required resources, busy dictionaries and requirement assertions;
+   one busy entry per task and one record per worker; validated task kinds) and the semantics of each busy entry. *)
+Theorem C11_views_agree : forall ops st e c delta t0 t,
+  reaches ops st -> sat e (initialize st) -> no_early_out st -> reqs_are_workers st ->
+  In t (ps_tasks st) ->
+  forall k, In k (ts_assigned (task_solution st e delta t0 t))
+            <-> exists rep s x, In rep (so_resources (build_solution c st e delta t0)) /\ rs_name rep = k
+                                /\ In (ti_id t, s, x) (rs_assignments rep).
+Proof. exact views_agree. Qed.
+Print Assumptions C11_views_agree.
+
+(* tasks reported as not scheduled carry no assignment, in either view *)
+Theorem C11_unscheduled_no_assignment : forall ops st e c delta t0 t,
+  reaches ops st -> sat e (initialize st) -> no_early_out st -> In t (ps_tasks st) ->
+  ts_sched (task_solution st e delta t0 t) = false ->
+  ts_assigned (task_solution st e delta t0 t) = []
+  /\ forall rep s x, In rep (so_resources (build_solution c st e delta t0)) -> ~ In (ti_id t, s, x) (rs_assignments rep).
+Proof. exact unscheduled_no_assignment. Qed.
+Print Assumptions C11_unscheduled_no_assignment.
+
+(* the guards are decidable on a given state and hold in the example (no early_out, only plain / unit workers required);
+   where they fail the clause is decided by the direct checks on the real object (known findings F26, F04). *)
 
 Theorem C11_hypotheses_satisfiable : exists st, reaches ex3_prog st /\ sat ex3_env (su_asserts (solver_setup default_cfg st))
   /\ List.length (x_inds (ps_ext st)) = 14%nat /\ List.length (x_bufs (ps_ext st)) = 2%nat
